@@ -162,15 +162,20 @@ fn resolve_text(text: &str, digest_of: &dyn Fn(usize) -> Option<String>) -> Stri
             // optional suffix after the index ("@3=" = digest of disclosure 3 followed by '='):
             // strings that merely *look like* the digest
             let mut k = j;
-            while k < b.len() && (b[k] == b'=' || b[k] == b' ' || b[k] == b'.') {
+            // '<' = the digest without its last character (repeatable), '!' = none of it: strings
+            // the real digest merely *extends*
+            while k < b.len() && (b[k] == b'=' || b[k] == b' ' || b[k] == b'.' || b[k] == b'<' || b[k] == b'!') {
                 k += 1;
             }
             if j > i + 2 && k < b.len() && b[k] == b'"' {
                 if let Ok(n) = text[i + 2..j].parse::<usize>() {
                     if let Some(d) = digest_of(n) {
+                        let suffix = &text[j..k];
+                        let cut = suffix.matches('<').count();
+                        let mut d: String = if suffix.contains('!') { String::new() } else { d.chars().take(d.chars().count().saturating_sub(cut)).collect() };
+                        d.push_str(&suffix.replace(['<', '!'], ""));
                         out.push('"');
                         out.push_str(&d);
-                        out.push_str(&text[j..k]);
                         out.push('"');
                         i = k + 1;
                         continue;
@@ -247,7 +252,7 @@ fn find_refs(text: &str) -> Vec<usize> {
                 j += 1;
             }
             let mut k = j;
-            while k < b.len() && (b[k] == b'=' || b[k] == b' ' || b[k] == b'.') {
+            while k < b.len() && (b[k] == b'=' || b[k] == b' ' || b[k] == b'.' || b[k] == b'<' || b[k] == b'!') {
                 k += 1;
             }
             if j > i + 2 && k < b.len() && b[k] == b'"' {
@@ -709,6 +714,10 @@ impl<'a> Exec<'a> {
 
     fn c07<T>(&mut self, o: &Out<T>, entry: &str, base: Base, case: Option<&Case>) {
         if let Out::Panic(p) = o {
+            // the caller's own resolver refusing by panic is the caller's panic, not the library's
+            if p.msg.contains("resolver refuses") {
+                return;
+            }
             self.rep.count("probe.panic_seen");
             if self.scn.check != "C07" {
                 return;
@@ -821,7 +830,15 @@ impl<'a> Exec<'a> {
                 let mut keys: Vec<String> = o.keys().cloned().collect();
                 Rng::new(seed).shuffle(&mut keys);
                 let m: Map<String, Value> = keys.into_iter().filter_map(|k| o.get(&k).map(|v| (k.clone(), v.clone()))).collect();
-                let t = Value::Object(m).to_string();
+                let v = Value::Object(m);
+                // half of them also in another, equally valid, JSON text: indented, with blanks
+                // and line breaks before and after
+                let t = if seed & 1 == 1 {
+                    self.rep.count("fault.json_whitespace");
+                    format!("{}{}{}", ["\n  ", " ", "\r\n", "\t"][(seed >> 1) as usize % 4], serde_json::to_string_pretty(&v).unwrap_or_else(|_| v.to_string()), ["\n", "", "  \n\n", " "][(seed >> 3) as usize % 4])
+                } else {
+                    v.to_string()
+                };
                 if t != s {
                     self.rep.count("fault.json_member_order");
                 }
@@ -945,6 +962,10 @@ impl<'a> Exec<'a> {
             Resolver::Fixed(k) => {
                 self.rep.count("fault.resolver_fixed_key");
                 fired.push(format!("resolver:{}", keys::alg_of(k)));
+            }
+            Resolver::Refuses => {
+                self.rep.count("fault.resolver_refuses");
+                fired.push("resolver:refuses".into());
             }
         }
         if case.session.as_ref().map(|(a, n)| a.is_some() != n.is_some()).unwrap_or(false) {
